@@ -90,6 +90,8 @@ def buffer_types(fdef):
                 elif k == 'L':
                     out.add(('L', b))
             return out
+        if isinstance(e, ast.IfExp):
+            return typeof(e.body, depth + 1) | typeof(e.orelse, depth + 1)
         if isinstance(e, (ast.Tuple, ast.List)):
             return {(('I', k), b) for x in e.elts for k, b in typeof(x, depth + 1)}
         if isinstance(e, ast.Call):
